@@ -230,6 +230,62 @@ theorem joined_limit_wrap_needed :
   ⟨[⟨10, some 1, 0⟩, ⟨11, some 1, 1⟩, ⟨12, some 1, 2⟩, ⟨20, some 2, 0⟩], [⟨1, 0⟩, ⟨2, 0⟩, ⟨3, 0⟩],
     by decide⟩
 
+/-! ## composite keys: the FK column order -/
+
+theorem lookup_eq_some_iff {l : List (Nat × Nat)} (hn : (l.map (·.1)).Nodup) (c v : Nat) :
+    l.lookup c = some v ↔ (c, v) ∈ l := by
+  induction l with
+  | nil => simp
+  | cons x xs ih =>
+    obtain ⟨k, w⟩ := x
+    simp only [List.map_cons, List.nodup_cons] at hn
+    simp only [List.lookup_cons, List.mem_cons, Prod.mk.injEq]
+    by_cases hk : c = k
+    · subst hk
+      simp only [beq_self_eq_true, Option.some.injEq, true_and]
+      constructor
+      · intro h; exact Or.inl h.symm
+      · rintro (h | h)
+        · exact h.symm
+        · exact absurd (List.mem_map_of_mem (f := (·.1)) h) hn.1
+    · have : (c == k) = false := by simpa using hk
+      simp only [this, ih hn.2]
+      constructor
+      · intro h; exact Or.inr h
+      · rintro (h | h)
+        · exact absurd h.1 hk
+        · exact h
+
+theorem lookup_perm {l l' : List (Nat × Nat)} (hp : l'.Perm l) (hn : (l.map (·.1)).Nodup) (c : Nat) :
+    l'.lookup c = l.lookup c := by
+  have hn' : (l'.map (·.1)).Nodup := (hp.map _).nodup_iff.2 hn
+  apply Option.ext
+  intro v
+  rw [lookup_eq_some_iff hn', lookup_eq_some_iff hn]
+  exact hp.mem_iff
+
+/-- **fk_cols_independent_of_declaration_order**: listing the child's FK columns by walking
+    the parent's primary key gives the same column list whatever order the join condition
+    (the ForeignKeyConstraint) declares the column pairs in — so the IN tuples, which are
+    built in primary-key order, always line up with it. -/
+theorem fk_cols_independent_of_declaration_order (pk : List Nat) (pairs pairs' : List (Nat × Nat))
+    (hp : pairs'.Perm pairs) (hn : (pairs.map (·.1)).Nodup) :
+    fkColsPkOrder pk pairs' = fkColsPkOrder pk pairs := by
+  unfold fkColsPkOrder
+  induction pk with
+  | nil => rfl
+  | cons c t ih => simp only [List.filterMap_cons, lookup_perm hp hn c, ih]
+
+/-- with the join-condition order instead, a ForeignKeyConstraint declared as (y, x) makes
+    parent (1, 2) receive the children of parent (2, 1) -/
+theorem fk_cols_join_order_counterexample :
+    selectinComposite [0, 1] (fkColsJoinOrder [0, 1] [(1, 1), (0, 0)]) [[1, 2], [2, 1]] [[1, 2, 77], [2, 1, 88]]
+      ≠ selectinComposite [0, 1] (fkColsPkOrder [0, 1] [(1, 1), (0, 0)]) [[1, 2], [2, 1]] [[1, 2, 77], [2, 1, 88]] := by
+  decide
+
+example : selectinComposite [0, 1] (fkColsPkOrder [0, 1] [(1, 1), (0, 0)]) [[1, 2], [2, 1]] [[1, 2, 77], [2, 1, 88]]
+    = [([1, 2], [[1, 2, 77]]), ([2, 1], [[2, 1, 88]])] := by decide
+
 /-! ## the nest decision -/
 
 /-- **should_nest_complete**: `_should_nest_selectable` wraps exactly when the property needs
